@@ -104,6 +104,7 @@ func verifAssert(c bool, label string) {
 	}
 }
 func verifReach(label string)    {}
+func verifOutcome(key, outcome string) {}
 func verifYield()                { runtime.Gosched() }
 func verifKnown(id string, c bool) {}
 func verifParam(name string, def int) int {
